@@ -351,6 +351,8 @@ func (gen *Generator) GenerateDef(args []Sexp, opname string) error {
 	Q("GenerateDef call with args[0]=%v", args[0].SexpString(nil))
 	dup := true
 	var instr Instruction
+	// neither the assigned-to expression nor the value is in tail position
+	gen.Tail = false
 	switch args[0].(type) {
 	case *SexpPair:
 		dup = false
@@ -376,7 +378,6 @@ func (gen *Generator) GenerateDef(args []Sexp, opname string) error {
 		}
 	}
 
-	gen.Tail = false
 	err := gen.Generate(args[1])
 	if err != nil {
 		return err
